@@ -1089,7 +1089,7 @@ fn large(c: &mut Case) {
 fn main() {
     runner::main(Spec {
         property: "C06",
-        rule: "one case = one data set (4..120 rows, 1..6 features; continuous / normal / small-integer / pairwise-distinct lattice features, optionally a constant feature and duplicated rows; 2..4 classes with non-contiguous, negative or fractional label values incl. classes with a single row / real targets of seven kinds; f64, 20 % f32) + one parameter set (seed in {0, u64::MAX, small, 2^s±1, random u64}, n_trees 1..30, m in {None,1..p}, max_depth None|1..8, min_samples_leaf 1..5, min_samples_split 0..8, three criteria, keep_samples on 75 %) fitted twice, predicted on the training rows and on 1..10 fresh rows (some copies of training rows, some far outside); the *_grown families disable all tree limits on lattice data and keep the samples. A case is non-trivial when the forest has >= 2 trees and either two member trees disagree on an evaluated row or some training row has a non-empty proper subset of out-of-bag trees; distinct = distinct hash of (model, width, X, fresh X, y, all parameters)",
+        rule: "one case = one data set (4..120 rows, 1..6 features; continuous / normal / small-integer / pairwise-distinct lattice features, optionally a constant feature and duplicated rows; 2..4 classes with non-contiguous, negative or fractional label values incl. classes with a single row / real targets of seven kinds; f64, 20 % f32) + one parameter set (seed in {0, u64::MAX, small, 2^s±1, random u64}, n_trees 1..30, m in {None,1..p}, max_depth None|1..8, min_samples_leaf 1..5, min_samples_split 0..8, three criteria, keep_samples on 75 %) fitted twice, predicted on the training rows and on 1..10 fresh rows (some copies of training rows, some far outside); the *_grown families disable all tree limits on lattice data and keep the samples. A case is non-trivial when the forest has >= 2 trees and either two member trees disagree on an evaluated row or some training row has a non-empty proper subset of out-of-bag trees; distinct = distinct hash of (model, width, X, fresh X, y, all parameters); large: 560..900 rows, classifiers with 257..280 classes; a refused (single-class) fit before, or an unrelated fit between, the two compared fits in a third of the cases; parameter objects are passed to fit as clones in every second case",
         assumptions: vec![
             "the bootstrap of tree t is observed through the model's own `samples[t]` mask (the observation point the property names); in the *_grown families it is cross-checked against the member tree itself: with all limits disabled and pairwise distinct feature values a tree reproduces the label / target of every row of its own bootstrap sample, and a regression tree has exactly one leaf per distinct row of its bootstrap sample",
             "ties for the plurality are accepted in favour of any tied class; rows contained in every bootstrap sample have no defined out-of-bag value (counted as oob.rows-without-oob-tree(value-not-judged)); only its independence of the row is required, i.e. all such rows of one forest receive the same value",
@@ -1104,7 +1104,7 @@ fn main() {
             Family::new("reg", 4000, 100000, reg),
             Family::new("clf_grown", 1500, 30000, clf_grown),
             Family::new("reg_grown", 1500, 30000, reg_grown),
-            Family::new("large", 48, 960, large),
+            Family::new("large", 48, 600, large),
         ],
         min_nontrivial: 1800,
         case_timeout_s: 120,
